@@ -1369,12 +1369,21 @@ func (t *tr) function() string {
 			}
 		}
 		f.windowFirst = first
+		t.guardIf = nil
+		if guardIf[f.spec.Lean] {
+			is, ok := list[start%len(list)].(*ast.IfStmt)
+			if !ok || f.spec.Until == "" {
+				panic(translErr{f.spec.Func + ": guardIf needs Until to name an if statement"})
+			}
+			t.guardIf = is
+			start++ // the `if` itself belongs to the window
+		}
 		if first > 0 {
 			// scalar locals the window reads but does not define (they were computed before it): parameters of the definition, "the value
 			// of x where the window begins", in order of first use
 			startPos := list[first].Pos()
 			seen := map[string]bool{}
-			for _, st := range list[first:] {
+			for _, st := range list[first:min(start, len(list))] {
 				ast.Inspect(st, func(n ast.Node) bool {
 					id, ok := n.(*ast.Ident)
 					if !ok {
@@ -1400,15 +1409,6 @@ func (t *tr) function() string {
 					return true
 				})
 			}
-		}
-		t.guardIf = nil
-		if guardIf[f.spec.Lean] {
-			is, ok := list[start%len(list)].(*ast.IfStmt)
-			if !ok || f.spec.Until == "" {
-				panic(translErr{f.spec.Func + ": guardIf needs Until to name an if statement"})
-			}
-			t.guardIf = is
-			start++ // the `if` itself belongs to the window
 		}
 		for n := start; n >= first+1 && !done; n-- {
 			if t.guardIf != nil && n < start {
